@@ -58,7 +58,10 @@ func (e *Env) goTask(name string, fn func()) {
 		go func() { defer e.wg.Done(); fn() }()
 		return
 	}
-	mc.GoNamed(name, fn)
+	t := mc.GoNamed(name, fn)
+	if name == "canceller" {
+		t.Free = true // environment: the cancellation may land anywhere at no preemption cost
+	}
 }
 
 func (e *Env) where(w string) {
